@@ -6,7 +6,7 @@
 //! recomputes the post-state from the pre-state.  The properties are also evaluated directly on the
 //! real editor (oracles) so that a violation comes with a concrete history.
 use chewing::conversion::{
-    ChewingEngine, Composition, ConversionEngine, FuzzyChewingEngine, Interval, SimpleEngine, Symbol,
+    ChewingEngine, Composition, ConversionEngine, FuzzyChewingEngine, Interval, SimpleEngine,
 };
 use chewing::dictionary::{Dictionary, DictionaryMut, Layered, LookupStrategy, Phrase, TrieBuf};
 use chewing::editor::keyboard::{KeyCode, KeyEvent, KeyboardLayout, Modifiers, Qwerty};
@@ -24,6 +24,10 @@ use std::io::Write as _;
 use std::panic::{catch_unwind, AssertUnwindSafe};
 use std::rc::Rc;
 use vharness::*;
+
+mod oracle_c06;
+mod step;
+use step::Step;
 
 // ------------------------------------------------------------------ wrappers (no hooks needed)
 
@@ -548,63 +552,6 @@ fn kb_s(b: EditorKeyBehavior) -> &'static str {
     }
 }
 
-/// sections of a snapshot: [state, com, syl, engine+symsel, options, misc]
-fn sections(snap: &str) -> Vec<&str> {
-    snap.split(" ; ").collect()
-}
-
-/// (last, dirty, nth, commit, notice, time)
-fn misc(snap: &str) -> Vec<&str> {
-    sections(snap)[5].split(' ').collect()
-}
-
-fn is_idle_key(c: KeyCode) -> bool {
-    use KeyCode::*;
-    matches!(c, Enter | Esc | Tab | Backspace | Del | Left | Right | Up | Down | Home | End | PageUp | PageDown)
-}
-
-/// C06 evaluated on the real editor for one key step
-fn oracle_c06(out: &mut Out, code: KeyCode, pre: &str, post: &str, ret: &str, dict_pre: &str, dict_post: &str, hist: &str) {
-    let (a, b) = (sections(pre), sections(post));
-    let (ma, mb) = (misc(pre), misc(post));
-    if ret == "I" {
-        let same = a[0] == b[0] && a[1] == b[1] && a[2] == b[2] && a[3] == b[3] && a[4] == b[4] && ma[2] == mb[2] && dict_pre == dict_post;
-        if !same {
-            out.oracle_fail("C06", "new", &format!("ignored key changed persistent state: {}", hist));
-        }
-        if mb[3] != "x" {
-            // a commit string is available after an ignored key
-            let class = if ma[3] != "x" && ma[0] != "C" { "F29-stale-commit" } else { "new" };
-            out.oracle_fail("C06", class, &format!("commit string {} available after an ignored key: {}", mb[3], hist));
-        }
-    }
-    if ret == "B" && a[1] != b[1] {
-        out.oracle_fail("C06", "new", &format!("bell changed the pre-edit or the cursor: {}", hist));
-    }
-    // pass-through when nothing is being composed
-    let com_empty = a[1].split(' ').nth(2 + a[1].split(' ').nth(1).unwrap().parse::<usize>().unwrap()) == Some("0");
-    let syl_empty = a[2].split(' ').nth(1) == Some("1");
-    if com_empty && syl_empty && is_idle_key(code) && ret != "I" {
-        match a[0].as_bytes()[0] {
-            b'E' => out.oracle_fail("C06", "new", &format!("idle key {:?} answered {} : {}", code, ret, hist)),
-            b'Y' => out.oracle_fail("C06", "F37-idle-in-entering-syllable", &format!("idle key {:?} answered {} with both buffers empty: {}", code, ret, hist)),
-            _ => {} // a candidate list / highlight is open: something is being composed
-        }
-    }
-}
-
-/// observable state used by the oracles: (display or None when the conversion panics is avoided: we only
-/// read it where the model says it is safe), cursor, symbols
-#[derive(Clone, PartialEq, Debug)]
-struct Obs {
-    symbols: Vec<Symbol>,
-    cursor: usize,
-    syl: String,
-    opts: String,
-    selecting: bool,
-    snapshot_persistent: String,
-}
-
 fn main() {
     let args: Vec<String> = std::env::args().collect();
     let thorough = tier_is_thorough();
@@ -767,10 +714,12 @@ fn main() {
                     let post = s.ed.verif_snapshot();
                     let dict_post = s.dict_s();
                     history.push(opstr.clone());
-                    if let Op::Key(c, _) = op {
-                        let hist = format!("session seed {} sid {} ops [{}]", seed, sid, history.join(" ; "));
-                        oracle_c06(&mut out, c, &pre, &post, &ret, &dict_pre, &dict_post, &hist);
-                    }
+                    let step = Step {
+                        op: &opstr, key: ev, pre: &pre, post: &post, ret: &ret,
+                        dict_pre: &dict_pre, dict_post: &dict_post, history: &history, seed, sid,
+                    };
+                    // the properties, evaluated directly on the real editor (one module per property)
+                    oracle_c06::check(&mut out, &step);
                     out.rec(&format!(
                         "ed {} | {} | {} | {} {} => ok | {} | {} | {}",
                         opstr, pre, dict_pre, lay_ans, conv_ans, post, ret, dict_post
